@@ -102,6 +102,18 @@ def mk_set(layout, level="caption"):
     return CaptionSet({"en-US": cl})
 
 
+def mk_set_from_doc(spec):
+    """the same layout, but as the DFXP reader builds it from a region whose lengths are spelled in a document"""
+    from pycaption import DFXPReader
+
+    from mc.ref import docs
+
+    g = lambda a: spec[a][0] + spec[a][1]  # noqa: E731
+    region = f'<region xml:id="r1" tts:origin="{g("ox")} {g("oy")}" tts:extent="{g("ew")} {g("eh")}" tts:padding="{g("pb")} {g("pe")} {g("pa")} {g("ps")}"/>'
+    doc = docs.dfxp_doc([("en-US", [('begin="1s" end="2s" region="r1"', "text")])], head=f"<layout>{region}</layout>")
+    return shared.obj(DFXPReader).read(doc)
+
+
 PCT = re.compile(r"^(\d+(?:\.\d{1,2})?)%$")
 
 
@@ -138,7 +150,8 @@ def eval_dfxp(spec, video, fit, level):
     v = []
     klass = "+".join(sorted({spec[a][1] for a in AXES if spec[a][1] != "%"})) or "percent"
     try:
-        doc = shared.obj(DFXPWriter, relativize=True, video_width=vw, video_height=vh, fit_to_screen=fit).write(mk_set(mk_layout(spec), level))
+        src = mk_set_from_doc(spec) if level == "document" else mk_set(mk_layout(spec), level)
+        doc = shared.obj(DFXPWriter, relativize=True, video_width=vw, video_height=vh, fit_to_screen=fit).write(src)
     except RelativizationError:
         if not want_err:
             v.append((f"C13/dfxp/unexpected-RelativizationError/{klass}", {"spec": spec, "video": video}))
@@ -375,8 +388,8 @@ def run_shard(d):
                 for si, spec in enumerate(specs_):
                     for video in VIDEO:
                         for fit in (False, True):
-                            for level in ("caption", "node", "lang"):
-                                if level != "caption" and val not in ("7", "33.333"):
+                            for level in ("caption", "node", "lang", "document"):
+                                if level in ("node", "lang") and val not in ("7", "33.333"):
                                     continue
                                 v, out = eval_dfxp(spec, video, fit, level)
                                 acc.case(("dfxp", a, si, unit, val, video, fit, level), True, out, {"writer": "DFXPWriter", "axis": a, "value": val + unit, "both_axes": bool(si), "video": video, "fit_to_screen": fit, "level": level})
